@@ -4,7 +4,9 @@
      mesa/space.py                          (PropertyLayer, _PropertyGrid, SingleGrid mask updates)
    transcribed statement by statement, failing paths included, for the code AS REPAIRED by
    fixes/C11-1 (only_empty uses the layer's array), C11-2 (add_property_layer rejects every
-   existing cell attribute) and C11-3 (unary ufuncs are applied, `nin` instead of `nargs`).
+   existing cell attribute), C11-3 (unary ufuncs are applied, `nin` instead of `nargs`), and by the
+   other builders' fixes now in /repo: atomic CellAgent.cell setter (add first, then remove),
+   MultiGrid.empty_mask kept in step, SingleGrid.move_agent rejecting an occupied target.
 
    NumPy arrays are finite maps  coordinate -> value  stored in row-major order of
    itertools.product of the ranges = all_coords dims; values are Z (bool 0/1, int, float * 16).
@@ -13,7 +15,7 @@
    PropertyDescriptors and the _mesa_properties set are three separate tables, updated in the
    order the source updates them.  Definitions only. *)
 From Coq Require Import ZArith List Bool.
-From Mesa Require Import Common.ListX.
+From Mesa Require Import Common.ListX Generated.Tables.
 Import ListNotations.
 Open Scope Z_scope.
 
@@ -97,6 +99,8 @@ Inductive oform := UBin | UUn | PyFn.
 Record layer := { l_name : Z; l_dt : Z; l_dims : list Z; l_data : arr }.
 Record state := {
   s_discrete : bool;            (* true: mesa.discrete_space Grid; false: mesa.space SingleGrid/MultiGrid *)
+  s_multi : bool;               (* legacy: MultiGrid / HexMultiGrid (several agents per cell) *)
+  s_cap : Z;                    (* discrete: cell capacity, 0 = None (unlimited) *)
   s_dims : list Z;
   s_objs : list layer;          (* heap of PropertyLayer objects *)
   s_grid : list (Z * Z);        (* _mesa_property_layers / properties : name -> object, insertion order *)
@@ -132,16 +136,16 @@ Fixpoint upd_nth {A} (l : list A) (n : nat) (v : A) : list A :=
   | x :: t, S n' => x :: upd_nth t n' v
   end.
 Definition set_objs (st : state) (objs : list layer) : state :=
-  {| s_discrete := s_discrete st; s_dims := s_dims st; s_objs := objs; s_grid := s_grid st;
+  {| s_discrete := s_discrete st; s_multi := s_multi st; s_cap := s_cap st; s_dims := s_dims st; s_objs := objs; s_grid := s_grid st;
      s_descr := s_descr st; s_props := s_props st; s_emask := s_emask st; s_agents := s_agents st |}.
 Definition set_data (st : state) (id : Z) (L : layer) (d : arr) : state :=
   set_objs st (upd_nth (s_objs st) (Z.to_nat id)
                  {| l_name := l_name L; l_dt := l_dt L; l_dims := l_dims L; l_data := d |}).
 Definition set_tables (st : state) (g d : list (Z * Z)) (p : list Z) : state :=
-  {| s_discrete := s_discrete st; s_dims := s_dims st; s_objs := s_objs st; s_grid := g;
+  {| s_discrete := s_discrete st; s_multi := s_multi st; s_cap := s_cap st; s_dims := s_dims st; s_objs := s_objs st; s_grid := g;
      s_descr := d; s_props := p; s_emask := s_emask st; s_agents := s_agents st |}.
 Definition set_agents (st : state) (em : arr) (ag : list (Z * coord)) : state :=
-  {| s_discrete := s_discrete st; s_dims := s_dims st; s_objs := s_objs st; s_grid := s_grid st;
+  {| s_discrete := s_discrete st; s_multi := s_multi st; s_cap := s_cap st; s_dims := s_dims st; s_objs := s_objs st; s_grid := s_grid st;
      s_descr := s_descr st; s_props := s_props st; s_emask := em; s_agents := ag |}.
 
 Inductive lref := ByHandle (h : Z) | ByName (n : Z).
@@ -194,16 +198,34 @@ Definition agent_cell (ag : list (Z * coord)) (a : Z) : option coord :=
   match find (fun p => fst p =? a) ag with Some p => Some (snd p) | None => None end.
 Definition drop_agent (ag : list (Z * coord)) (a : Z) : list (Z * coord) :=
   filter (fun p => negb (fst p =? a)) ag.
+(* cell._agents.remove(agent) / grid[x][y].remove(agent): the entry of agent a in cell c *)
+Definition remove_pair (ag : list (Z * coord)) (a : Z) (c : coord) : list (Z * coord) :=
+  filter (fun p => negb ((fst p =? a) && coord_eqb (snd p) c)) ag.
 Definition b2z (b : bool) : Z := if b then 1 else 0.
+Definition count_at (ag : list (Z * coord)) (c : coord) : Z :=
+  Z.of_nat (length (filter (fun p => coord_eqb (snd p) c) ag)).
+(* `self.capacity and n >= self.capacity` *)
+Definition cell_full (st : state) (c : coord) : bool :=
+  negb (s_cap st =? 0) && (s_cap st <=? count_at (s_agents st) c).
 
 (* Cell.remove_agent: self._agents.remove(agent); self.empty = self.is_empty *)
 Definition cell_remove_agent (st : state) (a : Z) (c : coord) : state :=
-  let ag := drop_agent (s_agents st) a in
+  let ag := remove_pair (s_agents st) a c in
   cell_setattr (set_agents st (s_emask st) ag) c EMPTY (b2z (negb (occupied ag c))).
-(* Cell.add_agent (capacity None): self.empty = False; self._agents.append(agent) *)
-Definition cell_add_agent (st : state) (a : Z) (c : coord) : state :=
+(* Cell.add_agent: n = len(self._agents); self.empty = False; full -> raise; self._agents.append(agent).
+   Returns the state left behind and whether the agent was accepted. *)
+Definition cell_add_agent (st : state) (a : Z) (c : coord) : state * bool :=
   let st1 := cell_setattr st c EMPTY 0 in
-  set_agents st1 (s_emask st1) (s_agents st1 ++ [(a, c)]).
+  if cell_full st c then (st1, false)
+  else (set_agents st1 (s_emask st1) (s_agents st1 ++ [(a, c)]), true).
+
+(* legacy remove_agent: SingleGrid resets the mask; MultiGrid only when the cell became empty *)
+Definition leg_remove (st : state) (a : Z) (c0 : coord) : state :=
+  let ag := remove_pair (s_agents st) a c0 in
+  set_agents st (if s_multi st && occupied ag c0 then s_emask st else aset (s_emask st) c0 1) ag.
+(* legacy place_agent on an accepted position *)
+Definition leg_place (st : state) (a : Z) (c : coord) : state :=
+  set_agents st (aset (s_emask st) c 0) (s_agents st ++ [(a, c)]).
 
 (* the emptiness view the grid offers: layer "empty" / empty_mask *)
 Definition empty_view (st : state) : option arr :=
@@ -274,23 +296,37 @@ Fixpoint apply_exts (st : state) (m : bmask) (exts : list (Z * Z)) : bmask + Z :
   end.
 
 Definition nz (v : Z) : bool := negb (v =? 0).
-Definition select_mask (st : state) (conds : list (Z * cond)) (exts : list (Z * Z))
-           (masks : list (list bool)) (only_empty : bool) : bmask + Z :=
-  let m0 := map (fun c => (c, true)) (all_coords (s_dims st)) in
-  let m1 := apply_masks (s_dims st) m0 masks in
-  match (if only_empty then
-           match empty_view st with
-           | Some e => Some (mask_and m1 (fun c => nz (aget0 e c)))
-           | None => None
-           end
-         else Some m1) with
-  | None => inr E_KEY
-  | Some m2 =>
-      match apply_conds st m2 conds with
-      | None => inr E_KEY
-      | Some m3 => apply_exts st m3 exts
+(* the filter stages of select_cells, run in the order the SOURCE has them (Generated.Tables,
+   re-extracted on every run by harness/tables/proplayer.py) *)
+Definition run_stage (st : state) (conds : list (Z * cond)) (exts : list (Z * Z))
+           (masks : list (list bool)) (only_empty : bool) (sg : sel_stage) (m : bmask) : bmask + Z :=
+  match sg with
+  | SMasks => inl (apply_masks (s_dims st) m masks)
+  | SEmpty =>
+      if only_empty then
+        match empty_view st with
+        | Some e => inl (mask_and m (fun c => nz (aget0 e c)))
+        | None => inr E_KEY
+        end
+      else inl m
+  | SConds => match apply_conds st m conds with Some m' => inl m' | None => inr E_KEY end
+  | SExts => apply_exts st m exts
+  end.
+Fixpoint run_stages (st : state) (conds : list (Z * cond)) (exts : list (Z * Z))
+         (masks : list (list bool)) (only_empty : bool) (sgs : list sel_stage) (m : bmask) : bmask + Z :=
+  match sgs with
+  | [] => inl m
+  | sg :: t =>
+      match run_stage st conds exts masks only_empty sg m with
+      | inl m' => run_stages st conds exts masks only_empty t m'
+      | inr k => inr k
       end
   end.
+Definition select_mask (st : state) (conds : list (Z * cond)) (exts : list (Z * Z))
+           (masks : list (list bool)) (only_empty : bool) : bmask + Z :=
+  run_stages st conds exts masks only_empty
+    (if s_discrete st then gen_select_order_discrete else gen_select_order_legacy)
+    (map (fun c => (c, true)) (all_coords (s_dims st))).
 Definition mask_list (m : bmask) : list coord :=
   flat_map (fun kb : coord * bool => if snd kb then [fst kb] else []) m.
 Definition select_obs (m : bmask) (aslist : bool) : list Z :=
@@ -313,6 +349,7 @@ Inductive op :=
          (only_empty aslist : bool)
 | Place (a : Z) (c : coord)
 | Move (a : Z) (c : coord)
+| MoveRel (a : Z) (dir : coord) (moore : bool)   (* discrete: agent.move_relative(dir) on a Moore / von Neumann grid *)
 | Remove (a : Z)
 | Skip.
 
@@ -374,6 +411,28 @@ Definition modify_cells (L : layer) (fm : oform) (f : fop) (hasval : bool) (cd :
   | _, _ => Some (map (fun kx => if eval_ocond cd (snd kx) then (fst kx, apply_fop f (snd kx)) else kx)
                       (l_data L))
   end.
+
+(* agent a, currently in c0, is moved to the valid cell c *)
+Definition do_move (st : state) (a : Z) (c0 c : coord) : state * res :=
+  if s_discrete st then
+    (* the cell setter: same cell -> return; add to the new cell first (a full cell
+       raises before anything else changed); remove from the old cell *)
+    if coord_eqb c c0 then (st, ROk [])
+    else match cell_add_agent st a c with
+         | (st1, true) => (cell_remove_agent st1 a c0, ROk [])
+         | (st1, false) => (st1, RErr E_EXC)
+         end
+  else if negb (s_multi st) && occupied (drop_agent (s_agents st) a) c
+  then (st, RErr E_EXC)                 (* SingleGrid.move_agent: occupant is another agent *)
+  else (leg_place (leg_remove st a c0) a c, ROk []).   (* _Grid.move_agent: remove, place *)
+
+(* the connection keys of a non-torus orthogonal grid: Moore = every non-zero offset in {-1,0,1}^n,
+   von Neumann = one axis moved by one *)
+Definition vadd (a b : coord) : coord := map (fun p => fst p + snd p) (combine a b).
+Definition dir_ok (moore : bool) (d : coord) : bool :=
+  forallb (fun x => (-1 <=? x) && (x <=? 1)) d
+  && (if moore then existsb (fun x => negb (x =? 0)) d
+      else Nat.eqb (length (filter (fun x => negb (x =? 0)) d)) 1).
 
 Definition step (st : state) (o : op) : state * res :=
   match o with
@@ -479,22 +538,34 @@ Definition step (st : state) (o : op) : state * res :=
         match agent_cell (s_agents st) a with
         | Some _ => (st, RSkip)
         | None =>
-            if s_discrete st then (cell_add_agent st a c, ROk [])
-            else if occupied (s_agents st) c then (st, RErr E_EXC)       (* "Cell not empty" *)
-            else (set_agents st (aset (s_emask st) c 0) (s_agents st ++ [(a, c)]), ROk [])
+            if s_discrete st then
+              (* agent.cell = cell with agent.cell None: cell.add_agent(agent) *)
+              match cell_add_agent st a c with
+              | (st1, true) => (st1, ROk [])
+              | (st1, false) => (st1, RErr E_EXC)                          (* "Cell is full" *)
+              end
+            else if s_multi st then (leg_place st a c, ROk [])
+            else if occupied (s_agents st) c then (st, RErr E_EXC)         (* "Cell not empty" *)
+            else (leg_place st a c, ROk [])
         end
       else (st, RSkip)
   | Move a c =>
       if valid_coord (s_dims st) c then
         match agent_cell (s_agents st) a with
         | None => (st, RSkip)
+        | Some c0 => do_move st a c0 c
+        end
+      else (st, RSkip)
+  | MoveRel a dir moore =>
+      if s_discrete st then
+        match agent_cell (s_agents st) a with
+        | None => (st, RSkip)
         | Some c0 =>
-            if s_discrete st then (cell_add_agent (cell_remove_agent st a c0) a c, ROk [])
-            else if occupied (drop_agent (s_agents st) a) c then (st, RSkip)  (* not generated: C08/C18 *)
-            else
-              (* remove_agent; place_agent *)
-              (set_agents st (aset (aset (s_emask st) c0 1) c 0) (drop_agent (s_agents st) a ++ [(a, c)]),
-               ROk [])
+            (* new_cell = self.cell.connections.get(direction); None -> ValueError *)
+            let c := vadd c0 dir in
+            if Nat.eqb (length dir) (length c0) && dir_ok moore dir && valid_coord (s_dims st) c
+            then do_move st a c0 c
+            else (st, RErr E_VALUE)
         end
       else (st, RSkip)
   | Remove a =>
@@ -502,7 +573,7 @@ Definition step (st : state) (o : op) : state * res :=
       | None => (st, RSkip)
       | Some c0 =>
           if s_discrete st then (cell_remove_agent st a c0, ROk [])
-          else (set_agents st (aset (s_emask st) c0 1) (drop_agent (s_agents st) a), ROk [])
+          else (leg_remove st a c0, ROk [])
       end
   | Skip => (st, RSkip)
   end.
@@ -536,14 +607,16 @@ Fixpoint run_state (st : state) (ops : list op) : state :=
 
 (* a fresh grid: the discrete one creates its "empty" layer (bool, True) in __init__ *)
 Definition DT_BOOL : Z := 0.  Definition DT_INT : Z := 1.  Definition DT_FLOAT : Z := 2.
-Definition init (discrete : bool) (dims : list Z) : state :=
+Definition init (discrete multi : bool) (cap : Z) (dims : list Z) : state :=
   if discrete then
-    {| s_discrete := true; s_dims := dims; s_objs := [mk_layer EMPTY DT_BOOL dims 1];
+    {| s_discrete := true; s_multi := multi; s_cap := cap; s_dims := dims;
+       s_objs := [mk_layer EMPTY DT_BOOL dims 1];
        s_grid := [(EMPTY, 0)]; s_descr := [(EMPTY, 0)]; s_props := [EMPTY];
        s_emask := []; s_agents := [] |}
   else
-    {| s_discrete := false; s_dims := dims; s_objs := []; s_grid := []; s_descr := []; s_props := [];
+    {| s_discrete := false; s_multi := multi; s_cap := cap; s_dims := dims;
+       s_objs := []; s_grid := []; s_descr := []; s_props := [];
        s_emask := full dims 1; s_agents := [] |}.
 
-Record case := { c_discrete : bool; c_dims : list Z; c_ops : list op }.
-Definition run_case (c : case) : list (list Z) := run_ops (init (c_discrete c) (c_dims c)) (c_ops c).
+Record case := { c_discrete : bool; c_multi : bool; c_cap : Z; c_dims : list Z; c_ops : list op }.
+Definition run_case (c : case) : list (list Z) := run_ops (init (c_discrete c) (c_multi c) (c_cap c) (c_dims c)) (c_ops c).
